@@ -9,6 +9,7 @@
 import GeonumModel.Lemmas.AngleNewTotal
 import GeonumModel.Lemmas.GeonumMag
 import GeonumModel.Spec.RealWitness
+import GeonumModel.Spec.RoundWitness
 import GeonumModel.Props.C09
 import GeonumModel.Props.C10
 import GeonumModel.Props.C11
@@ -123,6 +124,68 @@ theorem run_inv (ops : List (Op F)) (a : Angle F) (ha : a.Inv) (hw : ∀ o ∈ o
   | nil => exact ha
   | cons o os ih =>
     exact ih (step a o) (step_inv ha o (hw o List.mem_cons_self)) (fun o' ho' => hw o' (List.mem_cons_of_mem _ ho'))
+
+/-! #### `usize` / `i64` headroom.  The model counts blades in `Nat`, the code in `usize` (overflow panics in the dev
+    profile) and casts to `i64` in `geometric_sub`.  These bounds show the difference cannot matter on the property's domain:
+    one operation raises the blade count by at most the operand's count plus four, so histories of any practical length
+    starting inside `2^40` stay far below `2^63`. -/
+
+theorem wrap4_le (d : Int) : (wrap4 d : Int) ≤ max d 3 := by
+  unfold wrap4; split <;> omega
+
+/-- (S) growth of the blade count in one angle operation -/
+theorem blade_growth {a b : Angle F} (ha : a.Inv) (hb : b.Inv) :
+    (a.geometricAdd b).blade ≤ a.blade + b.blade + 1 ∧ (a.geometricSub b).blade ≤ max a.blade 3 + 1 ∧
+    a.dual.blade = a.blade + 2 ∧ a.negate.blade = a.blade + 2 ∧ a.conjugate.blade = a.blade + 2 ∧
+    a.baseAngle.blade ≤ a.blade := by
+  refine ⟨?_, ?_, (dual_spec ha).1, (negate_spec ha).1, (conjugate_spec ha).1, ?_⟩
+  · rcases (geometricAdd_spec ha hb).2.1 with h | h <;> omega
+  · obtain ⟨_, s, c, hs, hc, hbl, _⟩ := geometricSub_spec ha hb
+    have hw := wrap4_le ((a.blade : ℤ) - (b.blade : ℤ) + s)
+    rcases hs with rfl | rfl <;> rcases hc with rfl | rfl <;> omega
+  · show a.blade % 4 ≤ a.blade; exact Nat.mod_le _ _
+
+/-- the blade count an operation's operand brings in -/
+def Op.argBlade : Op F → Nat | .add x => x.blade | .sub x => x.blade | .rsub x => x.blade | _ => 0
+
+theorem step_blade_le {a : Angle F} (ha : a.Inv) (o : Op F) (ho : o.ArgInv) :
+    (step a o).blade ≤ a.blade + o.argBlade + 4 := by
+  cases o with
+  | add x => have := (blade_growth ha ho).1; simp only [step, Op.argBlade]; omega
+  | sub x => have := (blade_growth ha ho).2.1; simp only [step, Op.argBlade]; omega
+  | rsub x => have := (blade_growth ho ha).2.1; simp only [step, Op.argBlade]; omega
+  | dual => have := (blade_growth ha ha).2.2.1; simp only [step, Op.argBlade]; omega
+  | negate => have := (blade_growth ha ha).2.2.2.1; simp only [step, Op.argBlade]; omega
+  | conjugate => have := (blade_growth ha ha).2.2.2.2.1; simp only [step, Op.argBlade]; omega
+  | base => have := (blade_growth ha ha).2.2.2.2.2; simp only [step, Op.argBlade]; omega
+
+/-- (S) **no `usize` overflow along any history**: after any operation sequence the blade count is at most the start
+    count plus, per operation, the operand's count plus four -/
+theorem run_blade_le (ops : List (Op F)) (a : Angle F) (ha : a.Inv) (hw : ∀ o ∈ ops, o.ArgInv) :
+    (ops.foldl step a).blade ≤ a.blade + (ops.map (fun o => o.argBlade + 4)).sum := by
+  induction ops generalizing a with
+  | nil => simp
+  | cons o os ih =>
+    have h1 := step_blade_le ha o (hw o List.mem_cons_self)
+    have h2 := ih (step a o) (step_inv ha o (hw o List.mem_cons_self)) (fun o' ho' => hw o' (List.mem_cons_of_mem _ ho'))
+    simp only [List.foldl_cons, List.map_cons, List.sum_cons]
+    omega
+
+/-- (S) in numbers: a history of up to `2^20` operations whose start and operands have at most `2^40` blades ends below
+    `2^62`, so neither the `usize` additions nor the `as i64` casts of the code can overflow or wrap anywhere along it -/
+theorem run_no_overflow (ops : List (Op F)) (a : Angle F) (ha : a.Inv) (hw : ∀ o ∈ ops, o.ArgInv)
+    (hlen : ops.length ≤ 2 ^ 20) (ha40 : a.blade ≤ 2 ^ 40) (hops : ∀ o ∈ ops, o.argBlade ≤ 2 ^ 40) :
+    (ops.foldl step a).blade < 2 ^ 62 := by
+  have h := run_blade_le ops a ha hw
+  have hsum : (ops.map (fun o => o.argBlade + 4)).sum ≤ ops.length * (2 ^ 40 + 4) := by
+    have : ∀ x ∈ ops.map (fun o => o.argBlade + 4), x ≤ 2 ^ 40 + 4 := by
+      intro x hx
+      obtain ⟨o, ho, rfl⟩ := List.mem_map.mp hx
+      have := hops o ho; omega
+    have := List.sum_le_card_nsmul _ _ this
+    simpa using this
+  have : ops.length * (2 ^ 40 + 4) ≤ 2 ^ 20 * (2 ^ 40 + 4) := Nat.mul_le_mul_right _ hlen
+  omega
 
 /-- (S) Geonum operations return canonical angles: product, rotation, negation, duals, blade steps, wedge-style sums -/
 theorem geonum_angle_ops_inv {a b : Geonum F} (ha : a.angle.Inv) (hb : b.angle.Inv) :
@@ -371,5 +434,47 @@ example : (Angle.new (3 : ℝ) (4 : ℝ)).Inv := by
     rw [abs_of_pos (by positivity)]
     have : (3:ℝ) * Real.pi / 4 ≤ 3 := by nlinarith
     linarith
+
+/-! ### R — the same theorems on an arithmetic that really rounds
+
+  `R64` (Spec/RoundWitness.lean) is round-to-nearest on the binary64 grid with correctly rounded libm.  It satisfies the
+  `FloatSpec` contract, so every S-tier theorem applies to it with the `Fin` / `InRange` premises discharged outright.
+  The statements below are the headline C01 theorems in that form: they quantify over *all* pairs of finite binary64
+  values in the stated ranges and over all histories, in rounded arithmetic, with no hypothesis left about the arithmetic. -/
+section R
+
+/-- (R) every `Angle::new` result is canonical in round-to-nearest binary64 arithmetic -/
+theorem new_inv_rounded (p d : R64) (hpb : |p.v| ≤ 10 ^ 200) (hdl : 1 / 10 ^ 200 ≤ |d.v|)
+    (hq : |p.v * R64.piR / d.v| ≤ 2 ^ 42) : (Angle.new p d).Inv :=
+  new_inv_partial (F := R64) trivial trivial hpb hdl hq
+
+/-- (R) every value of every history of angle operations is canonical, and its blade count stays below `2^62` -/
+theorem run_rounded (ops : List (Op R64)) (a : Angle R64) (ha : a.Inv) (hw : ∀ o ∈ ops, o.ArgInv)
+    (hlen : ops.length ≤ 2 ^ 20) (ha40 : a.blade ≤ 2 ^ 40) (hops : ∀ o ∈ ops, o.argBlade ≤ 2 ^ 40) :
+    (ops.foldl step a).Inv ∧ (ops.foldl step a).blade < 2 ^ 62 :=
+  ⟨run_inv ops a ha hw, run_no_overflow ops a ha hw hlen ha40 hops⟩
+
+/-- (R) sums never have a NaN / negative magnitude: in `R64` the magnitude of `a + b` is a non-negative number for all
+    in-domain operands with canonical angles -/
+theorem add_mag_rounded {a b : Geonum R64} (ha : a.MagDom) (hb : b.MagDom) (hai : a.angle.Inv) (hbi : b.angle.Inv) :
+    0 ≤ (a.add b).mag.v := (add_mag_ok' ha hb hai hbi).2
+
+/-- non-vacuity in rounded arithmetic: `Angle::new(1.0, 3.0)` -/
+example : (Angle.new (R64.ofReal 1) (R64.ofReal 3) : Angle R64).Inv := by
+  have r1 : (R64.ofReal 1).v = 1 := R53.rnd_rep R64.rep_one
+  have r3 : (R64.ofReal 3).v = 3 := R53.rnd_rep (by simpa using R53.rep_nat (n := 3) (by norm_num))
+  apply new_inv_rounded
+  · rw [r1, abs_one]; exact one_le_pow₀ (by norm_num)
+  · rw [r3, abs_of_pos (by norm_num)]
+    calc (1:ℝ) / 10 ^ 200 ≤ 1 := by rw [div_le_one (by positivity)]; exact one_le_pow₀ (by norm_num)
+      _ ≤ 3 := by norm_num
+  · rw [r1, r3]
+    have := R64.piR_le; have := Real.pi_lt_four; have := R64.piR_pos
+    rw [abs_of_pos (by positivity)]
+    have : (1:ℝ) * R64.piR / 3 ≤ 2 := by linarith
+    have : (2:ℝ) ≤ 2 ^ 42 := by norm_num
+    linarith
+
+end R
 
 end GeonumModel.C01
